@@ -537,6 +537,41 @@ def validation(s):
         n += 1
         if accepts(doc):
             return core.refuted("finite", "unknown key inside %s accepted" % "/".join(path), witness_id="unknown-key:" + "/".join(path), replay={"reproduced": True})
+    # near-miss names: a key that merely LOOKS like a documented one (a missing / extra letter, a documented prefix or suffix) with a value of the documented type is
+    # as unknown as any other (a pattern-based schema would let it through and the setting would be silently ignored downstream)
+    def resolve(sub):
+        while "$ref" in sub:
+            tgt = schema
+            for r_ in sub["$ref"].split("/")[1:]:
+                tgt = tgt[r_]
+            sub = dict(tgt, **{k_: v_ for k_, v_ in sub.items() if k_ != "$ref"})
+        return sub
+    for path in (("elast", "settings"), ("elast", "settings", "symmetry")):
+        node = resolve(schema)
+        for k_ in path:
+            node = resolve(resolve(node)["properties"][k_])
+        documented = dict(node.get("properties", {}))
+        if path[-1] == "symmetry":
+            # the symmetry settings are handed to fill_cij as keyword arguments: the keys that mean anything are exactly its parameters (an oracle independent of the schema text)
+            import inspect
+            from cij.util.fill import fill_cij
+            typed = {bool: {"type": "boolean"}, float: {"type": "number"}, int: {"type": "number"}, str: {"type": "string"}, type(None): {"type": "string"}}
+            for pname, par in list(inspect.signature(fill_cij).parameters.items())[1:]:
+                documented.setdefault(pname, typed.get(type(par.default), {"type": "number"}))
+        sample = {"boolean": True, "number": 0.5, "integer": 3, "string": "cubic", "object": {}, "array": []}
+        for name, sub in documented.items():
+            sub = resolve(sub)
+            val = sub["enum"][0] if "enum" in sub else sample.get(sub.get("type"), 1)
+            parts = name.split("_")
+            for variant in {name + "s", name[:-1], name + "_", parts[0] + "_zzz", "zzz_" + parts[-1], name.upper()}:
+                if variant in documented or not variant:
+                    continue
+                doc = copy.deepcopy(default)
+                set_path(doc, path + (variant,), val)
+                n += 1
+                if accepts(doc):
+                    return core.refuted("finite", "unknown key %s = %r (a near miss of the documented %r) is accepted" % ("/".join(path + (variant,)), val, name),
+                                        witness_id="near-miss:%s" % variant, replay={"reproduced": True})
     s.notes["validation_cases"] = n
     s.notes["schema_fields"] = fields
     if fields < 15:
